@@ -32,7 +32,7 @@ def bounds(tier):
     return {"contexts_main": S.CONTEXTS if th else S.CONTEXTS[:4], "contexts_other": S.CONTEXTS[:6] if th else S.CONTEXTS[:2],
             "K_ctx": 3, "K_free": 3, "leaves": S.LEAVES_SMALL if th else S.LEAVES_TINY,
             "configs_main": CFG_MAIN, "configs_other": CFG_OTHER,
-            "block_switch_neighbourhood_d": 2 if th else 1, "neighbourhood_configs": len(_block_neighbourhood(2 if th else 1)),
+            "separator_leaves": S.SEP_LEAVES, "block_switch_neighbourhood_d": 2 if th else 1, "neighbourhood_configs": len(_block_neighbourhood(2 if th else 1)),
             "neighbourhood_docs": len(I.core_docs())}
 
 
@@ -40,6 +40,8 @@ def shards(tier):
     th = tier == "thorough"
     sh = I.block_shards(tier, CFG_MAIN, contexts=S.CONTEXTS if th else S.CONTEXTS[:4])
     sh += I.block_shards(tier, CFG_OTHER, contexts=S.CONTEXTS[:6] if th else S.CONTEXTS[:2])
+    for f in S.SEP_LEAVES:
+        sh.append(("sep", f))
     cfgs = _block_neighbourhood(2 if th else 1)
     for i in range(0, len(cfgs), 4):
         sh.append(("bcfgs", 2 if th else 1, i, min(len(cfgs), i + 4)))
